@@ -220,4 +220,77 @@ theorem Tiles.bounds {dur : Int} : ∀ {l : List (Int × Int)} {a b : Int}, Tile
     · have := Tiles.bounds h4 p hp
       omega
 
+/-! ### what the evaluation grid is (validates the specification function `grid`) -/
+
+theorem mem_gridN {s step : Int} {n : Nat} {t : Int} :
+    t ∈ gridN s step n ↔ ∃ k : Nat, k < n ∧ t = s + step * k := by
+  simp [gridN]
+  constructor
+  · rintro ⟨k, hk, rfl⟩; exact ⟨k, hk, rfl⟩
+  · rintro ⟨k, hk, rfl⟩; exact ⟨k, hk, rfl⟩
+
+/-- `grid start stop step` is exactly the set of timestamps `start + k·step ≤ stop`, `k ≥ 0`. -/
+theorem mem_grid {start stop step t : Int} (hs : 0 < step) :
+    t ∈ grid start stop step ↔ start ≤ t ∧ t ≤ stop ∧ (t - start) % step = 0 := by
+  unfold grid
+  by_cases h : stop < start
+  · simp [h]; intro h1 h2; omega
+  · simp only [h, if_false, mem_gridN]
+    have hq0 : 0 ≤ (stop - start) / step := Int.ediv_nonneg (by omega) (by omega)
+    have hdm := Int.emod_add_mul_ediv (stop - start) step
+    have hm0 := Int.emod_nonneg (stop - start) (by omega : step ≠ 0)
+    have hm1 := Int.emod_lt_of_pos (stop - start) hs
+    constructor
+    · rintro ⟨k, hk, rfl⟩
+      have hk' : (k : Int) ≤ (stop - start) / step := by omega
+      have : step * (k : Int) ≤ step * ((stop - start) / step) :=
+        Int.mul_le_mul_of_nonneg_left hk' (by omega)
+      have hk0 : 0 ≤ step * (k : Int) := Int.mul_nonneg (by omega) (by omega)
+      refine ⟨by omega, by omega, ?_⟩
+      have : start + step * (k : Int) - start = step * k := by omega
+      rw [this]; simp
+    · rintro ⟨h1, h2, h3⟩
+      obtain ⟨k, hk⟩ := Int.dvd_of_emod_eq_zero h3
+      have hk0 : 0 ≤ k := by
+        rcases Int.lt_or_le k 0 with h' | h'
+        · have : step * k < 0 := Int.mul_neg_of_pos_of_neg hs h'
+          omega
+        · exact h'
+      refine ⟨k.toNat, ?_, ?_⟩
+      · have hle : k ≤ (stop - start) / step := by
+          rcases Int.lt_or_le ((stop - start) / step) k with h' | h'
+          · have : step * ((stop - start) / step + 1) ≤ step * k :=
+              Int.mul_le_mul_of_nonneg_left (by omega) (by omega)
+            rw [Int.mul_add] at this
+            omega
+          · exact h'
+        omega
+      · have : ((k.toNat : Nat) : Int) = k := by omega
+        rw [this]; omega
+
+theorem gridN_nodup {s step : Int} (hs : 0 < step) (n : Nat) : (gridN s step n).Nodup := by
+  unfold gridN
+  refine List.Pairwise.map _ ?_ (List.nodup_range (n := n))
+  intro a b hne hab
+  have h : step * (a : Int) = step * (b : Int) := by simpa using hab
+  have := Int.eq_of_mul_eq_mul_left (by omega : step ≠ 0) h
+  omega
+
+/-- the grid lists every evaluation timestamp once -/
+theorem grid_nodup {start stop step : Int} (hs : 0 < step) : (grid start stop step).Nodup := by
+  unfold grid; split
+  · simp
+  · exact gridN_nodup hs _
+
+/-- the grid is strictly ascending -/
+theorem grid_pairwise {start stop step : Int} (hs : 0 < step) : (grid start stop step).Pairwise (· < ·) := by
+  unfold grid; split
+  · exact List.Pairwise.nil
+  · unfold gridN
+    rw [List.pairwise_map]
+    refine List.Pairwise.imp ?_ (List.pairwise_lt_range (n := _))
+    intro a b hab
+    have : step * (a : Int) < step * (b : Int) := Int.mul_lt_mul_of_pos_left (by omega) hs
+    omega
+
 end Thanos.Split
